@@ -23,12 +23,14 @@ Definition module_names : bool :=
 (** 3. every low-level import the trampoline emits exists in the provider with the same Wasm signature. *)
 Definition emitted_imports_exist : bool := table_sub trampoline_emits provider_exports && nodup_b (names provider_exports).
 
-(** 4. the string-carrying imports are signature-checked; unknown names, other versions and several
-       memories are refused (the empty-name hole is property C07's finding F5, not part of C15). *)
+(** 4. the string-carrying imports are signature-checked; unknown names (the empty name included, since
+       the repair of finding F5), other versions and several memories are refused; every underscore
+       name the tool lets through is something the provider really exports. *)
 Definition trampoline_guards : bool :=
   subset ["shopify_function_input_read_utf8_str"; "shopify_function_input_get_obj_prop"; "shopify_function_output_new_utf8_str";
           "shopify_function_intern_utf8_str"; "shopify_function_log_new_utf8_str"] trampoline_rejects_wrong_sig
-  && trampoline_rejects_unknown && trampoline_rejects_other_version && trampoline_rejects_two_memories.
+  && trampoline_rejects_unknown && trampoline_rejects_empty_name && trampoline_rejects_other_version && trampoline_rejects_two_memories
+  && subset trampoline_accepts_lowlevel (names provider_exports).
 
 (** 5. status, error and type-tag numbers in the documentation and header equal those in the code. *)
 Definition ren_status (n : string) : string := if String.eqb n "Success" then "Ok" else n.
